@@ -116,7 +116,7 @@ func cmdFunc(args []string) {
 	var keys []string
 	for _, k := range ss.Order {
 		for _, pat := range fs.Args() {
-			if strings.Contains(k, pat) && !ss.Contracts[k].Trusted {
+			if strings.Contains(k, pat) && !ss.Contracts[k].Trusted && !ss.Contracts[k].SpecOnly && !ss.Contracts[k].Inline {
 				keys = append(keys, k)
 			}
 		}
@@ -137,6 +137,14 @@ func cmdFunc(args []string) {
 	work, _ := os.MkdirTemp(filepath.Join(verifDir, ".work"), "func-")
 	var vcs []*FuncVC
 	for _, k := range keys {
+		if ss.Contracts[k].IsIface {
+			rv, und := ctx.genRefinements(ss.Contracts[k])
+			for _, u := range und {
+				fmt.Println("UNDECIDED:", u)
+			}
+			vcs = append(vcs, rv...)
+			continue
+		}
 		fn := ctx.lookupFunc(k)
 		if fn == nil {
 			fmt.Println("UNDECIDED: no such function", k)
@@ -171,7 +179,7 @@ func cmdFunc(args []string) {
 		for _, o := range vc.Obls {
 			if o.Status != "unsat" || *verbose {
 				fmt.Printf("  %-7s %s  [%s %.2fs] %s\n", o.Status, shortKey(o.Name), o.Solver, o.TimeS, o.Pos)
-				if o.Status == "sat" {
+				if o.Status == "sat" || o.Candidate {
 					var ks []string
 					for k := range o.Model {
 						ks = append(ks, k)
